@@ -375,9 +375,14 @@ func init() {
 		Name:  "FLOW-units",
 		Doc:   "an index into the []rune copy of a string is a rune position: it is never (derived from) the byte offset handed out by ranging over that string",
 		Props: []string{"C10", "C02"},
-		Floor: 1,
+		Floor: 0, // a tree that indexes no []rune copy of a string has nothing to confuse (self-test mutant flow/units-* keeps the rule alive)
 		Run: func(c *Ctx, s *core.Sink) {
 			n := map[string]int{}
+			defer func() {
+				if len(n) == 0 {
+					s.Obs = append(s.Obs, core.Obligation{Rule: s.Rule, Construct: "units/none", Pos: "-", Verdict: core.Discharged, Fact: "inventory: no []rune copy of a string is indexed anywhere in the module", Props: s.Props, Trivial: true})
+				}
+			}()
 			for _, f := range c.P.ModFns {
 				for _, b := range f.Blocks {
 					for _, ins := range b.Instrs {
